@@ -105,7 +105,13 @@ def main():
         BATTERY = ["0", "-0", "7", "-5", "+1", "+0", "-", "+", "1_000", "1_", "_1", "1__0", "-1_0", "0x10", "0xFF", "0x", "0X1f", "0b1", "0o7", "007", "00", "-007", "1e3", "1.5", "1.", ".5",
                    "9" * 19, "9" * 20, "9" * 39, "9" * 40, "9" * 80, "-" + "9" * 80, str(2 ** 63), str(-2 ** 63 - 1), str(-2 ** 63), str(2 ** 64), str(2 ** 127), str(2 ** 128), str(-2 ** 127 - 1),
                    "1_000_000_000_000_000_000_000", "+9223372036854775808", "+" + "9" * 40, "0x7fffffffffffffff", "0xffffffffffffffffff", "0x_", "1_" * 30 + "1", "-+1", "+-1", "--1", "1-", "1+"]
-        for lit, res in zip(BATTERY, native_parse(binary, BATTERY)):
+        binary_dev = build_native("header_driver", profile="dev")       # overflow checks and debug assertions on, like `cargo test`
+        res_rel, res_dev = native_parse(binary, BATTERY), native_parse(binary_dev, BATTERY)
+        for lit, res, rdev in zip(BATTERY, res_rel, res_dev):
+            if res != "panic" and rdev == "panic":
+                res, binary_used = "panic", binary_dev
+            else:
+                binary_used = binary
             if res == "panic":
                 rp = os.path.join(REPLAYS, PROP, "number_battery")
                 os.makedirs(rp, exist_ok=True)
@@ -114,8 +120,8 @@ def main():
                 with open(os.path.join(rp, "REPLAY.md"), "w") as f:
                     f.write("Property C07 (native guard): parse_iso_literal panics on the literal\n%s\nRun: bash %s/replay.sh (exit 1 = the parser panics)\n" % (literal_text(lit), rp))
                 with open(os.path.join(rp, "replay.sh"), "w") as f:
-                    f.write("#!/bin/bash\n%s '%s' < %s/input.hex && exit 0 || exit 1\n" % (binary, PLUGIN_RE.replace("'", "'\\''"), rp))
-                violations.append(("native guard: parse_iso_literal panics on `bar(a: %s)`" % lit, rp))
+                    f.write("#!/bin/bash\n%s '%s' < %s/input.hex && exit 0 || exit 1\n" % (binary_used, PLUGIN_RE.replace("'", "'\\''"), rp))
+                violations.append(("native guard: parse_iso_literal panics on `bar(a: %s)`%s" % (lit, "" if binary_used == binary else " in the dev profile (overflow checks on), not in release"), rp))
                 samples.append({"literal": lit, "native": res, "stage": "number battery"})
                 break
         samples.append({"native_guard_number_spellings": len(BATTERY)})
